@@ -1295,7 +1295,7 @@ def evaluate__from_datetime_functions(self: XPathFunction, context: ta.ContextTy
     elif self.symbol.startswith('minute'):
         return item.minute
     elif item.microsecond:
-        return Decimal('{}.{}'.format(item.second, item.microsecond))
+        return Decimal('{}.{:06d}'.format(item.second, item.microsecond))
     else:
         return item.second
 
